@@ -62,6 +62,137 @@ struct Typed {
     borrowed: Option<String>,
 }
 
+/// Every typed conversion of one value (`get(..).cast::<T>()`).
+fn typed_of_value(v: &Value) -> Typed {
+    Typed {
+        bool_: v.by_ref().cast(),
+        i8_: v.by_ref().cast(),
+        i16_: v.by_ref().cast(),
+        i32_: v.by_ref().cast(),
+        i64_: v.by_ref().cast(),
+        i128_: v.by_ref().cast(),
+        isize_: v.by_ref().cast(),
+        u8_: v.by_ref().cast(),
+        u16_: v.by_ref().cast(),
+        u32_: v.by_ref().cast(),
+        u64_: v.by_ref().cast(),
+        u128_: v.by_ref().cast(),
+        usize_: v.by_ref().cast(),
+        f64_: v.by_ref().cast(),
+        string: v.by_ref().cast::<String>(),
+        cow: v.to_cow_str().map(|c| c.into_owned()),
+        borrowed: v.to_borrowed_str().map(|s| s.to_string()),
+    }
+}
+
+/// Every typed pull of `val` straight off a property set (`Props::pull::<T>`).
+fn typed_of_props<P: Props + ?Sized>(p: &P) -> Typed {
+    Typed {
+        bool_: p.pull::<bool, _>("val"),
+        i8_: p.pull::<i8, _>("val"),
+        i16_: p.pull::<i16, _>("val"),
+        i32_: p.pull::<i32, _>("val"),
+        i64_: p.pull::<i64, _>("val"),
+        i128_: p.pull::<i128, _>("val"),
+        isize_: p.pull::<isize, _>("val"),
+        u8_: p.pull::<u8, _>("val"),
+        u16_: p.pull::<u16, _>("val"),
+        u32_: p.pull::<u32, _>("val"),
+        u64_: p.pull::<u64, _>("val"),
+        u128_: p.pull::<u128, _>("val"),
+        usize_: p.pull::<usize, _>("val"),
+        f64_: p.pull::<f64, _>("val"),
+        string: p.pull::<String, _>("val"),
+        cow: p.pull::<std::borrow::Cow<str>, _>("val").map(|c| c.into_owned()),
+        borrowed: p.pull::<&str, _>("val").map(|s| s.to_string()),
+    }
+}
+
+/// The first requested type on which two sets of typed reads differ.
+fn typed_diff(a: &Typed, b: &Typed, with_borrowed: bool) -> Option<(&'static str, String)> {
+    macro_rules! cmp {
+        ($f:ident, $name:literal) => {
+            if a.$f != b.$f {
+                return Some(($name, format!("{:?} vs {:?}", a.$f, b.$f)));
+            }
+        };
+    }
+    cmp!(bool_, "bool");
+    cmp!(i8_, "i8");
+    cmp!(i16_, "i16");
+    cmp!(i32_, "i32");
+    cmp!(i64_, "i64");
+    cmp!(i128_, "i128");
+    cmp!(isize_, "isize");
+    cmp!(u8_, "u8");
+    cmp!(u16_, "u16");
+    cmp!(u32_, "u32");
+    cmp!(u64_, "u64");
+    cmp!(u128_, "u128");
+    cmp!(usize_, "usize");
+    match (a.f64_, b.f64_) {
+        (Some(x), Some(y)) if f64_same(x, y) => {}
+        (None, None) => {}
+        (x, y) => return Some(("f64", format!("{:?} vs {:?}", x, y))),
+    }
+    cmp!(string, "String");
+    cmp!(cow, "Cow<str>");
+    if with_borrowed {
+        cmp!(borrowed, "&str");
+    }
+    None
+}
+
+/// What the emitter sees of `val` when a lower-precedence set of the event holds the same key.
+#[derive(Clone, Debug)]
+struct ShadowObs {
+    /// (path name, typed reads); the first is the concrete event's `Props::pull`
+    paths: Vec<(&'static str, Option<Typed>)>,
+}
+
+/// A value of another primitive type that shadows `val` from base props / the ambient context.
+#[derive(Clone, Copy, Debug, PartialEq)]
+enum ShadowVal {
+    I32(i32),
+    Str(&'static str),
+    Bool(bool),
+    F64(f64),
+    U64(u64),
+}
+
+const SHADOWS: &[ShadowVal] = &[ShadowVal::I32(3), ShadowVal::Str("third"), ShadowVal::Bool(true), ShadowVal::F64(2.5), ShadowVal::U64(u64::MAX), ShadowVal::Str("7"), ShadowVal::I32(-1)];
+
+impl ShadowVal {
+    fn value(self) -> Value<'static> {
+        match self {
+            ShadowVal::I32(x) => Value::from(x),
+            ShadowVal::Str(x) => Value::from(x),
+            ShadowVal::Bool(x) => Value::from(x),
+            ShadowVal::F64(x) => Value::from(x),
+            ShadowVal::U64(x) => Value::from(x),
+        }
+    }
+
+    fn kind(self) -> &'static str {
+        match self {
+            ShadowVal::I32(_) | ShadowVal::U64(_) => "int",
+            ShadowVal::Str(_) => "str",
+            ShadowVal::Bool(_) => "bool",
+            ShadowVal::F64(_) => "float",
+        }
+    }
+}
+
+fn model_kind(m: &M) -> &'static str {
+    match m {
+        M::Bool(_) => "bool",
+        M::F32(_) | M::F64(_) => "float",
+        M::Str(_) | M::Char(_) => "str",
+        other if other.as_int().is_some() => "int",
+        _ => "other",
+    }
+}
+
 /// Everything one read of a value shows, as owned data.
 #[derive(Clone, Debug)]
 struct Obs {
@@ -92,25 +223,7 @@ fn observe(v: Value) -> Obs {
         debug_alt: format!("{:#?}", v),
         serde: serde_json::to_string(&v).map_err(|e| e.to_string()),
         sval: sval_json::stream_to_string(&v).map_err(|e| e.to_string()),
-        typed: Typed {
-            bool_: v.by_ref().cast(),
-            i8_: v.by_ref().cast(),
-            i16_: v.by_ref().cast(),
-            i32_: v.by_ref().cast(),
-            i64_: v.by_ref().cast(),
-            i128_: v.by_ref().cast(),
-            isize_: v.by_ref().cast(),
-            u8_: v.by_ref().cast(),
-            u16_: v.by_ref().cast(),
-            u32_: v.by_ref().cast(),
-            u64_: v.by_ref().cast(),
-            u128_: v.by_ref().cast(),
-            usize_: v.by_ref().cast(),
-            f64_: v.by_ref().cast(),
-            string: v.by_ref().cast::<String>(),
-            cow: v.to_cow_str().map(|c| c.into_owned()),
-            borrowed: v.to_borrowed_str().map(|s| s.to_string()),
-        },
+        typed: typed_of_value(&v),
         chain,
     }
 }
@@ -259,11 +372,28 @@ impl Emitter for GlobalObsEmitter {
 }
 
 #[derive(Clone, Default)]
-struct ObsEmitter(Arc<Mutex<Vec<Option<Obs>>>>);
+struct ObsEmitter(Arc<Mutex<Vec<Option<Obs>>>>, Arc<Mutex<Vec<ShadowObs>>>, Arc<std::sync::atomic::AtomicBool>);
 
 impl Emitter for ObsEmitter {
     fn emit<E: emit::event::ToEvent>(&self, evt: E) {
         let evt = evt.to_event();
+        if self.2.load(std::sync::atomic::Ordering::SeqCst) {
+            // typed reads of a shadowed key: on the concrete event this (typed) emitter is handed,
+            // on its erased form, and on owned copies of the value
+            let erased = evt.erase();
+            let owned = evt.props().get("val").map(|v| (v.to_owned(), v.to_shared()));
+            let paths = vec![
+                ("concrete-pull", Some(typed_of_props(evt.props()))),
+                ("concrete-cast", evt.props().get("val").map(|v| typed_of_value(&v))),
+                ("erased-pull", Some(typed_of_props(erased.props()))),
+                ("erased-cast", erased.props().get("val").map(|v| typed_of_value(&v))),
+                ("by-ref-pull", Some(typed_of_props(&evt.by_ref().props()))),
+                ("owned", owned.as_ref().map(|(o, _)| typed_of_value(&o.by_ref()))),
+                ("shared", owned.as_ref().map(|(_, s)| typed_of_value(&s.by_ref()))),
+            ];
+            self.1.lock().unwrap().push(ShadowObs { paths });
+            return;
+        }
         let o = evt.props().get("val").map(observe);
         self.0.lock().unwrap().push(o);
     }
@@ -295,6 +425,8 @@ struct Driver<'a> {
     collect: Option<Vec<String>>,
     /// the known sval-seq finding seen while collecting (it does not decide which stacked mode holds)
     pending_known: Vec<String>,
+    /// typed reads of the captured value alone (no shadowing), from the `evt!` site
+    reference: Option<Option<Typed>>,
 }
 
 fn f64_same(a: f64, b: f64) -> bool {
@@ -313,7 +445,7 @@ impl<'a> Driver<'a> {
         );
         let direct_serde = serde_json::to_string(model).map_err(|e| e.to_string());
         let direct_sval = sval_json::stream_to_string(model).map_err(|e| e.to_string());
-        Driver { r, site, cap, model, exp, case, rt, emitter, direct_serde, direct_sval, threads, alt: None, variant: 0, collect: None, pending_known: Vec::new() }
+        Driver { r, site, cap, model, exp, case, rt, emitter, direct_serde, direct_sval, threads, alt: None, variant: 0, collect: None, pending_known: Vec::new(), reference: None }
     }
 
     fn violation(&mut self, path: &str, what_sig: &str, what: String) {
@@ -552,6 +684,7 @@ impl<'a> Driver<'a> {
 
     /// An event built by `emit::evt!`.
     fn event<P: Props>(&mut self, evt: &emit::Event<P>) {
+        self.reference = catch(|| evt.props().get("val").map(|v| typed_of_value(&v))).ok();
         self.check("direct", evt.props().get("val"), Level::Full);
         {
             let erased = evt.erase();
@@ -643,6 +776,72 @@ impl<'a> Driver<'a> {
 
     fn runtime(&self) -> &Rt {
         &self.rt
+    }
+
+    /// Two values of primitive types other than the captured one: for base props and the ambient frame.
+    fn shadows(&self) -> (ShadowVal, ShadowVal) {
+        let kind = model_kind(self.model);
+        let start = (self.variant / 3) as usize;
+        let mut picks = (0..SHADOWS.len()).map(|k| SHADOWS[(start + k) % SHADOWS.len()]).filter(|s| s.kind() != kind);
+        let a = picks.next().unwrap_or(ShadowVal::I32(3));
+        let b = picks.find(|s| s.kind() != a.kind()).unwrap_or(ShadowVal::Bool(true));
+        (a, b)
+    }
+
+    fn shadow_mode(&self, on: bool) {
+        self.emitter.2.store(on, std::sync::atomic::Ordering::SeqCst);
+    }
+
+    /// After an `emit!` whose key `val` also exists, with another primitive type, in a
+    /// lower-precedence set of the event (`form`: ambient frame, base `props:`, both).
+    /// Every typed read must agree across paths and equal the captured value's own cast.
+    fn emitted_shadowed(&mut self, form: &str) {
+        self.shadow_mode(false);
+        let seen: Vec<ShadowObs> = std::mem::take(&mut *self.emitter.1.lock().unwrap());
+        self.r.observe(&format!("path:shadowed:{}", form), seen.len() as u64);
+        if seen.len() != 1 {
+            self.violation("shadowed", "not-emitted", format!("emit! reached the emitter {} times", seen.len()));
+            return;
+        }
+        let obs = &seen[0];
+        let reference = match self.reference.clone() {
+            Some(r) => r,
+            None => return,
+        };
+        let none = Typed::default();
+        let first = obs.paths[0].1.clone().unwrap_or_default();
+        for (path, typed) in &obs.paths {
+            self.r.observe("check:shadowed-typed-reads", 1);
+            let buffered = matches!(*path, "owned" | "shared");
+            let got = typed.clone().unwrap_or_default();
+            // (a) the call-site value wins: same typed reads as the captured value alone.
+            //     An optional `None` contributes no property, so a lower set legitimately shows through.
+            if self.exp.present {
+                let want = reference.as_ref().unwrap_or(&none);
+                if let Some((t, why)) = typed_diff(&got, want, !buffered) {
+                    let mut case = self.case.clone();
+                    case["path"] = json!(path);
+                    case["shadowed_by"] = json!(form);
+                    self.r.violation(
+                        &format!("C19:shadowed:{}:{}:{}:differs-from-unshadowed", path, t, form),
+                        &format!("site {}: with `val` also present in {} (another type), {}::<{}> = {} (shadowed vs the captured value alone)", self.site, form, path, t, why),
+                        case,
+                    );
+                    continue;
+                }
+            }
+            // (b) all paths agree with the concrete event's pull
+            if let Some((t, why)) = typed_diff(&got, &first, !buffered) {
+                let mut case = self.case.clone();
+                case["path"] = json!(path);
+                case["shadowed_by"] = json!(form);
+                self.r.violation(
+                    &format!("C19:shadowed:{}:{}:{}:paths-disagree", path, t, form),
+                    &format!("site {}: with `val` also present in {}, {}::<{}> disagrees with the concrete event's pull: {}", self.site, form, path, t, why),
+                    case,
+                );
+            }
+        }
     }
 
     /// After a level macro (`info!`, `warn!`, …) through the recording runtime.
@@ -829,6 +1028,33 @@ macro_rules! sites {
                         emit::dbg!("site dbg {n}", n: 5, $($attr)* val: $vexpr);
                         d.emitted_dbg("template");
                     }
+                }
+                // the same key shadowed, with another primitive type, in lower-precedence sets
+                {
+                    let (below, ambient) = d.shadows();
+                    let base = [("val", below.value()), ("other", Value::from(1))];
+                    let amb = [("val", ambient.value()), ("more", Value::from("x"))];
+                    let rt = d.runtime();
+                    d.shadow_mode(true);
+                    let form = match d.variant % 3 {
+                        0 => {
+                            let mut frame = emit::Frame::push(rt.ctxt(), &amb[..]);
+                            let _guard = frame.enter();
+                            emit::emit!(rt, "site shadowed {n}", n: 6, $($attr)* val: $vexpr);
+                            "ambient"
+                        }
+                        1 => {
+                            emit::emit!(rt, props: &base[..], "site shadowed", $($attr)* val: $vexpr);
+                            "base-props"
+                        }
+                        _ => {
+                            let mut frame = emit::Frame::push(rt.ctxt(), &amb[..]);
+                            let _guard = frame.enter();
+                            emit::warn!(rt, props: &base[..], "site shadowed", $($attr)* val: $vexpr, n: 7);
+                            "base-props+ambient"
+                        }
+                    };
+                    d.emitted_shadowed(form);
                 }
                 // span arguments
                 {
